@@ -88,6 +88,8 @@ def _np_index(idx):
     if t == "slice":
         return slice(*idx["v"])
     if t == "mask":
+        if idx.get("as") == "list":
+            return [bool(x) for x in idx["v"]]
         return np.array(idx["v"], dtype=bool)
     if t == "ncmask":
         full = np.zeros(2 * len(idx["v"]), dtype=bool)
@@ -135,6 +137,8 @@ def gen_index(rng, m, faulty):
         t = "ncmask" if rng.random() < 0.12 else "mask"
         if t == "mask" and rng.random() < 0.08:
             return {"t": t, "v": v, "ro": True}
+        if t == "mask" and v and rng.random() < 0.2:
+            return {"t": t, "v": v, "as": "list"}  # a plain Python list of bools is a mask for numpy, too
         return {"t": t, "v": v}
     k = rng.randint(0, n)
     v = rng.sample(range(n), k) if n else []
